@@ -47,7 +47,19 @@ func blockFrames(n int, seed uint64) (tab hx.Table, frames []qframe.QFrame, tabs
 	for i := range sel {
 		sel[i] = n - 1 - i
 	}
-	return tab, []qframe.QFrame{plain, rev}, []hx.Table{tab, tab.Rows(sel)}
+	// a third arrangement: first and last row in place, everything between them shuffled (the index is then a
+	// permutation of a consecutive range that starts with its minimum and ends with its maximum)
+	inner := hx.Iota(n)
+	for i := n - 2; i > 1; i-- {
+		j := 1 + rng.Intn(i)
+		inner[i], inner[j] = inner[j], inner[i]
+	}
+	rk := make([]int, n)
+	for pos, row := range inner {
+		rk[row] = pos
+	}
+	shuffled := hx.Build(tab.With(hx.Col{Name: "zzrk", Kind: hx.KInt, I: rk})).Sort(qframe.Order{Column: "zzrk"}).Select(tab.Names()...)
+	return tab, []qframe.QFrame{plain, rev, shuffled}, []hx.Table{tab, tab.Rows(sel), tab.Rows(inner)}
 }
 
 func colOf(qf qframe.QFrame, name string) (hx.Col, error) {
@@ -67,10 +79,11 @@ func blockSeed() uint64 {
 }
 
 func blockSizes() []int {
+	small := []int{33, 65, 257} // just past the small thresholds (32, 64, 256)
 	if tier() == "thorough" {
-		return hx.BlockSizes
+		return append(small, hx.BlockSizes...)
 	}
-	return hx.BlockSizes[:len(hx.BlockSizes)-2] // 32769 and 65537 in the thorough tier only
+	return append(small, hx.BlockSizes[:len(hx.BlockSizes)-2]...) // 32769 and 65537 in the thorough tier only
 }
 
 func TestC06Blocks(t *testing.T) {
@@ -102,13 +115,13 @@ func TestC06Blocks(t *testing.T) {
 				}
 				want := ins.Exec(in, hx.Iota(n)).MustCol(ins.Dst)
 				if diff := hx.Diff(hx.Table{Cols: []hx.Col{want}}, hx.Table{Cols: []hx.Col{got}}); diff != "" {
-					t.Fatalf("Apply(%s) on a frame of %d rows (reversed=%v) differs from the model: %s", ins.String(), n, fi == 1, diff)
+					t.Fatalf("Apply(%s) on a frame of %d rows (arrangement %d: 0 storage order, 1 reversed, 2 inner rows shuffled) differs from the model: %s", ins.String(), n, fi, diff)
 				}
 				runs++
 			}
 			rn, err := colOf(qf.WithRowNums("rn"), "rn")
 			if err != nil || hx.Diff(hx.Table{Cols: []hx.Col{{Name: "rn", Kind: hx.KInt, I: hx.Iota(n)}}}, hx.Table{Cols: []hx.Col{rn}}) != "" {
-				t.Fatalf("WithRowNums on a frame of %d rows (reversed=%v) differs from 0..n-1: %v", n, fi == 1, err)
+				t.Fatalf("WithRowNums on a frame of %d rows (arrangement %d) differs from 0..n-1: %v", n, fi, err)
 			}
 		}
 	}
@@ -130,6 +143,10 @@ func TestC07Blocks(t *testing.T) {
 		call("+", col("s1"), col("s2")), call("+", col("s1"), cs), call("+", cs, col("s1")),
 		call("abs", col("i1")), call("abs", col("f1")), call("!", col("b1")), call("upper", col("s1")), call("len", col("s1")), call("str", col("i1")), call("float", col("i1")),
 		call("+", call("*", col("i1"), col("i2")), call("abs", col("i2"))), call("+", col("i1"), col("i2"), col("i1"), ci),
+		// neutral constants are still operands (-0.0 + 0.0 is +0.0)
+		call("+", col("f1"), hx.Expr{Op: "const", CK: hx.KFloat, CF: 0}), call("-", col("f1"), hx.Expr{Op: "const", CK: hx.KFloat, CF: 0}),
+		call("*", col("f1"), hx.Expr{Op: "const", CK: hx.KFloat, CF: 1}), call("*", hx.Expr{Op: "const", CK: hx.KFloat, CF: 1}, col("f2")),
+		call("+", col("i1"), hx.Expr{Op: "const", CK: hx.KInt, CI: 0}), call("*", hx.Expr{Op: "const", CK: hx.KInt, CI: 1}, col("i1")),
 	}
 	runs := 0
 	for _, n := range blockSizes() {
@@ -147,7 +164,7 @@ func TestC07Blocks(t *testing.T) {
 				}
 				want := e.EvalCol(in, "n1", false)
 				if diff := hx.Diff(hx.Table{Cols: []hx.Col{want}}, hx.Table{Cols: []hx.Col{got}}); diff != "" {
-					t.Fatalf("Eval(%s) on a frame of %d rows (reversed=%v) differs from the model: %s", e.String(), n, fi == 1, diff)
+					t.Fatalf("Eval(%s) on a frame of %d rows (arrangement %d: 0 storage order, 1 reversed, 2 inner rows shuffled) differs from the model: %s", e.String(), n, fi, diff)
 				}
 				if len(res.ColumnNames()) != len(in.Cols)+1 {
 					t.Fatalf("Eval(%s) on %d rows left columns %q", e.String(), n, res.ColumnNames())
@@ -155,6 +172,34 @@ func TestC07Blocks(t *testing.T) {
 				runs++
 			}
 		}
+	}
+	// rows a filter has removed are not evaluated: integer division where only excluded rows hold a zero divisor
+	for _, n := range append([]int{16, 17, 40, 100}, blockSizes()...) {
+		x, y := make([]int, n), make([]int, n)
+		for i := range x {
+			x[i] = i*7 - 50
+			y[i] = i%5 + 1
+			if i%50 == 13 || i == n-1 {
+				y[i] = 0
+			}
+		}
+		qf := qframe.New(map[string]interface{}{"x": x, "y": y})
+		var res qframe.QFrame
+		if perr := hx.Safely(func() {
+			res = qf.Filter(qframe.Filter{Column: "y", Comparator: "!=", Arg: 0}).Eval("q", qframe.Expr("/", types.ColumnName("x"), types.ColumnName("y")))
+		}); perr != nil {
+			t.Fatalf("Filter(y != 0).Eval(x / y) on %d rows panicked (a removed row was evaluated?): %v", n, perr)
+		}
+		if res.Err != nil {
+			t.Fatalf("Filter(y != 0).Eval(x / y) on %d rows: %v", n, res.Err)
+		}
+		qv, xv, yv := res.MustIntView("q"), res.MustIntView("x"), res.MustIntView("y")
+		for r := 0; r < qv.Len(); r++ {
+			if yv.ItemAt(r) == 0 || qv.ItemAt(r) != xv.ItemAt(r)/yv.ItemAt(r) {
+				t.Fatalf("Filter(y != 0).Eval(x / y) on %d rows: row %d holds x=%d y=%d q=%d", n, r, xv.ItemAt(r), yv.ItemAt(r), qv.ItemAt(r))
+			}
+		}
+		runs++
 	}
 	evC07.CaseHash(true, 0x424c4f43, func() string {
 		return fmt.Sprintf("block sizes: %d expressions x %v rows x {storage order, reversed}: %d Eval calls compared with the model", len(exprs), blockSizes(), runs)
@@ -214,13 +259,13 @@ func TestC02Blocks(t *testing.T) {
 				for r := 0; r < n; r++ {
 					if cl.Eval(in, r) {
 						if k >= len(got) || got[k] != ids[r] {
-							t.Fatalf("Filter(%s) on a frame of %d rows (reversed=%v): kept row %d is not the model's (row id %d expected at position %d)", cl.String(), n, fi == 1, k, ids[r], k)
+							t.Fatalf("Filter(%s) on a frame of %d rows (arrangement %d): kept row %d is not the model's (row id %d expected at position %d)", cl.String(), n, fi, k, ids[r], k)
 						}
 						k++
 					}
 				}
 				if k != len(got) {
-					t.Fatalf("Filter(%s) on a frame of %d rows (reversed=%v) kept %d rows, the model keeps %d", cl.String(), n, fi == 1, len(got), k)
+					t.Fatalf("Filter(%s) on a frame of %d rows (arrangement %d) kept %d rows, the model keeps %d", cl.String(), n, fi, len(got), k)
 				}
 				runs++
 			}
@@ -512,5 +557,111 @@ func TestC11Blocks(t *testing.T) {
 	}
 	evC11.CaseHash(true, 0x424c4f43, func() string {
 		return fmt.Sprintf("block sizes: 9 operations x %v rows, solo and four at once on frames sharing storage (%d runs, race detector on)", sizes, runs)
+	}, "block-sizes")
+}
+
+// TestC03Blocks: Sort on frames of thousands of rows in the arrangements an implementation might special-case or split:
+// random, already ordered on the first key (ties straddling the middle), reversed; two and three keys, all flags.
+func TestC03Blocks(t *testing.T) {
+	sizes := []int{4095, 4096, 4097, 8191, 16385}
+	if tier() == "thorough" {
+		sizes = append(sizes, 20003, 32769, 65537)
+	}
+	runs := 0
+	for _, n := range sizes {
+		rng := hx.SplitMix(blockSeed() ^ uint64(n))
+		k1, k2, f := make([]int, n), make([]int, n), make([]float64, n)
+		for i := range k1 {
+			k1[i] = rng.Intn(7)
+			k2[i] = rng.Intn(1 << 30)
+			f[i] = float64(rng.Intn(100)) / 4
+			if rng.Intn(25) == 0 {
+				f[i] = math.NaN()
+			}
+		}
+		tab := hx.Table{Cols: []hx.Col{{Name: "k1", Kind: hx.KInt, I: k1}, {Name: "k2", Kind: hx.KInt, I: k2}, {Name: "f", Kind: hx.KFloat, F: f}, {Name: "id", Kind: hx.KInt, I: hx.Iota(n)}}}
+		base := hx.Build(tab)
+		arrangements := map[string]qframe.QFrame{
+			"random":              base,
+			"ordered on k1":       base.Sort(qframe.Order{Column: "k1"}),
+			"ordered on k1,f":     base.Sort(qframe.Order{Column: "k1"}, qframe.Order{Column: "f"}),
+			"reverse of k1,k2":    base.Sort(qframe.Order{Column: "k1", Reverse: true}, qframe.Order{Column: "k2", Reverse: true}),
+			"ordered on f (NaNs)": base.Sort(qframe.Order{Column: "f", NullLast: true}),
+		}
+		orderSets := [][]hx.Order{
+			{{Col: "k1"}, {Col: "k2"}},
+			{{Col: "k1"}, {Col: "f", NullLast: true}, {Col: "k2", Reverse: true}},
+			{{Col: "k1", Reverse: true}, {Col: "k2"}},
+			{{Col: "f"}, {Col: "k1"}, {Col: "k2"}},
+		}
+		for name, qf := range arrangements {
+			in, err := hx.Observe(qf)
+			if err != nil {
+				t.Fatal(err)
+			}
+			for _, os := range orderSets {
+				res := qf.Sort(hx.BuildOrders(os)...)
+				got, err := hx.Observe(res)
+				if err != nil || res.Err != nil {
+					t.Fatalf("Sort of %d rows (%s): %v %v", n, name, res.Err, err)
+				}
+				if msg := checkSorted(in, got, os); msg != "" {
+					t.Fatalf("Sort(%s) of %d rows arranged as %q: %s", hx.OrdersString(os), n, name, msg)
+				}
+				runs++
+			}
+		}
+	}
+	evC03.CaseHash(true, 0x424c4f43, func() string {
+		return fmt.Sprintf("block sizes: %v rows x 5 arrangements x 4 order lists (%d sorts checked)", sizes, runs)
+	}, "block-sizes")
+}
+
+// TestC05Blocks: Distinct and GroupBy on thousands of rows whose keys repeat with a period around and above the block
+// sizes, in storage order and shuffled; counted against the period.
+func TestC05Blocks(t *testing.T) {
+	sizes := []int{4097, 8200, 16385, 20003}
+	if tier() == "thorough" {
+		sizes = append(sizes, 32769, 65537, 140000)
+	}
+	runs := 0
+	for _, n := range sizes {
+		for _, period := range []int{1, 3, 4095, 4096, 4097, 5000, n / 2, n - 1, n} {
+			if period < 1 || period > n {
+				continue
+			}
+			k, s := make([]int, n), make([]string, n)
+			for i := range k {
+				k[i] = (i % period) * 3
+				s[i] = "k" + strconv.Itoa(i%period)
+			}
+			base := qframe.New(map[string]interface{}{"k": k, "s": s, "id": hx.Iota(n)})
+			for ai, qf := range []qframe.QFrame{base, base.Sort(qframe.Order{Column: "id", Reverse: true}), base.Sort(qframe.Order{Column: "s"})} {
+				for _, key := range []string{"k", "s"} {
+					d := qf.Distinct(groupby.Columns(key))
+					if d.Err != nil || d.Len() != period {
+						t.Fatalf("Distinct(%s) of %d rows with %d different keys (arrangement %d): %d rows, Err %v", key, n, period, ai, d.Len(), d.Err)
+					}
+					a := qf.GroupBy(groupby.Columns(key)).Aggregate(qframe.Aggregation{Fn: "count", Column: "id", As: "n"}, qframe.Aggregation{Fn: "min", Column: "id", As: "first"})
+					if a.Err != nil || a.Len() != period {
+						t.Fatalf("GroupBy(%s) of %d rows with %d different keys (arrangement %d): %d groups, Err %v", key, n, period, ai, a.Len(), a.Err)
+					}
+					cnt, first := a.MustIntView("n"), a.MustIntView("first")
+					for r := 0; r < a.Len(); r++ {
+						want := n / period
+						if first.ItemAt(r) < n%period {
+							want++
+						}
+						if first.ItemAt(r) >= period || cnt.ItemAt(r) != want {
+							t.Fatalf("GroupBy(%s) of %d rows, period %d (arrangement %d): the group of row %d counts %d rows, want %d", key, n, period, ai, first.ItemAt(r), cnt.ItemAt(r), want)
+						}
+					}
+					runs++
+				}
+			}
+		}
+	}
+	evC05.CaseHash(true, 0x424c4f43, func() string {
+		return fmt.Sprintf("block sizes: Distinct and GroupBy on %v rows with keys of period 1 … n, three arrangements (%d runs)", sizes, runs)
 	}, "block-sizes")
 }
